@@ -107,6 +107,21 @@ CLAIMS = {
         technique="memo-purity / injectivity / scan-coverage analyses, role templates over canonical forms, "
                   "units-of-measure inference for indices (custom clang plugin + rule engine)",
     ),
+    "C11": dict(
+        category="other",
+        text="The per-cell printing code of write_state_diag_str is interpreted over the finite domain entry kind x "
+             "conflict flag (11 cells, exhaustive) and the text printed is compared with what the driver does with "
+             "such a cell; printed operands are tied to the cell by canonical forms and index-space typing (rule "
+             "numbers as written, target states); the CONF fixpoint shows flag and kind are produced exactly when a "
+             "shift and a reduce item (or two reduce items) meet; coverage rules show every rule, state, item and "
+             "lookahead is listed; the diagnostics read the members the driver executes. The structural rules of "
+             "the table construction are included as necessary conditions of 'the conflicts reported are the real "
+             "ones'. These rules found the repaired defects D12 and D13.",
+        design_ref="DESIGN.md 5/C11",
+        note=TB + " Not decided: that the item sets are the true LR(1) item sets (undecided part of C01).",
+        technique="finite-domain abstract interpretation of the printing code + canonical-form operand matching + "
+                  "index-space inference",
+    ),
 }
 
 NOT_APPLICABLE = {
